@@ -116,8 +116,91 @@ def check_unbalanced_admission(res):
     res.sample(dict(layer="UB", variants="charge dropped from one species / one coefficient raised, every pool equilibrium"))
 
 
+EXT_PAIRS = [((0,), (1,)), ((1,), (0,)), ((0,), (2, 3)), ((0, 1), (6,)), ((6,), (0, 1)), ((4,), (7,))]
+
+
+def check_extended(res, ia, ib, ns_name, rp):
+    """ONE EqSystem object evaluated, then extended in place (es += other, bringing new species and elements), then evaluated
+    again: the equations are those of the combined system (count, zero at its equilibrium, non-zero when a NEW species is
+    doubled — i.e. the new element's conservation is there)"""
+    import sympy as sp
+
+    A, Bc, C = Ctx(ia, "fwd", 0), Ctx(ib, "fwd", 0), Ctx(tuple(ia) + tuple(ib), "fwd", 0)
+    case = dict(layer="EX", ia=list(ia), ib=list(ib), ns=ns_name, rp=rp)
+    site = "%s|rp=%d|system-extended-in-place" % (ns_name, rp)
+    res.states += 1
+    res.transitions += 3
+    res.nontrivial += 1
+    res.evaluations += 3
+    try:
+        with warnings.catch_warnings():
+            warnings.simplefilter("ignore")
+            es = A._mk_eqsys()
+            ns1 = _numsys(ns_name)(es, backend=sp, rref_preserv=bool(rp))
+            tr = TRANSFORMS[ns_name][0]
+            ns1.f(transform_exact(tr, A.cvec()), [_R(x) for x in A.cvec()] + [_R(k) for k in A.K])
+            es.composition_balance_vectors()
+            es += Bc._mk_eqsys()
+            order = list(es.substances)
+            if sorted(order) != sorted(C.names) or len(es.rxns) != C.nr:
+                raise ValueError("+= gave substances %r, reactions %d" % (order, len(es.rxns)))
+            ns2 = _numsys(ns_name)(es, backend=sp, rref_preserv=bool(rp))
+            cv = [C.cstar[n] for n in order]
+            params = [_R(x) for x in cv] + [_R(k) for k in C.K]
+            f0 = list(ns2.f(transform_exact(tr, cv), params))
+            new = [n for n in order if n not in A.names and n != "H2O"]
+            dbl = [2 * c if n == new[-1] else c for n, c in zip(order, cv)]
+            f1 = list(ns2.f(transform_exact(tr, dbl), params))
+    except Exception as e:
+        res.outcomes["extended-raises"] += 1
+        res.violation("C07|%s|raises" % site, "%s then += %s: %s: %s" % ("+".join(M.TAGS[i] for i in ia), "+".join(M.TAGS[i] for i in ib), type(e).__name__, str(e)[:120]), case, "EXC %s" % type(e).__name__, None)
+        return
+    want = C.nr + (C.rankB if rp else len(C.keys))
+    nz0 = [k for k, e in enumerate(f0) if zero_class(e) is None]
+    nz1 = [k for k, e in enumerate(f1) if zero_class(e) is None]
+    bad = None
+    if len(f0) != want:
+        bad = "%d equations, the combined system has %d reactions + %d conservation relations" % (len(f0), C.nr, want - C.nr)
+    elif nz0:
+        bad = "non-zero components %s at the equilibrium state of the combined system" % nz0
+    elif not nz1:
+        bad = "zero in every component although %s was doubled" % new[-1]
+    res.outcomes["extended-ok" if bad is None else "extended-WRONG"] += 1
+    if bad:
+        res.violation("C07|%s|%s" % (site, "equation-count" if "equations" in bad else ("nonzero-at-equilibrium" if nz0 else "zero-off-equilibrium")), "EqSystem(%s) evaluated, then += EqSystem(%s), %s rref_preserv=%s: %s" % (
+            "+".join(M.TAGS[i] for i in ia), "+".join(M.TAGS[i] for i in ib), ns_name, bool(rp), bad), case, bad, None)
+
+
+# a large system (7 equilibria, 14 species): water, ammonia, carbonic acid (two steps), acetic acid, the two ammine complexes
+BIG_IDX = tuple(M.TAGS.index(t) for t in ("water", "nh4", "h2co3", "hco3", "hac", "cunh3", "agnh3"))
+
+
+def run_big(res, order, ns_name):
+    """every configuration of one formulation on the 14-species system, at c* itself and one extent away from it, directly and
+    symbolically; the species-doubling and K-inverting perturbations at the zero extent"""
+    ctx = Ctx(BIG_IDX, order, 0)
+    nr = ctx.nr
+    perts = perturbations(ctx)
+    res.extra["max_species"] = max(res.extra.get("max_species", 0), ctx.ns)
+    for cfg in configs("thorough", 1):
+        if cfg[0] != ns_name:
+            continue
+        for tr in TRANSFORMS[cfg[0]]:
+            for xi, scale in (((0,) * nr, "milli"), ((1,) * nr, "milli")):
+                res.states += 1
+                res.transitions += sum(1 for x in xi if x)
+                res.nontrivial += 1
+                for mode in ("direct", "symbolic"):
+                    check_one(res, ctx, cfg, tr, xi, scale, None, mode)
+            for pert in perts[:4] + perts[-2:]:
+                if pert[0] == "K-inverted" and not cfg[3]:
+                    continue
+                check_one(res, ctx, cfg, tr, (0,) * nr, "milli", pert, "direct")
+    res.sample(dict(layer="BG", system=[M.TAGS[i] for i in BIG_IDX], species=ctx.ns, formulation=ns_name, order=order), limit=1)
+
+
 def chunks(tier):
-    return [("UB",)] + _chunks_f(tier) + [("G", i, j) for i in range(len(OFFER_SYSTEMS)) for j in range(4)]
+    return [("UB",), ("EX",)] + [("BG", order, ns) for order in ("fwd", "rev") for ns in NUMSYS] + _chunks_f(tier) + [("G", i, j) for i in range(len(OFFER_SYSTEMS)) for j in range(4)]
 
 
 def _chunks_f(tier):
@@ -679,6 +762,18 @@ def run_chunk(chunk, tier):
         res = Result()
         check_unbalanced_admission(res)
         return res
+    if chunk[0] == "BG":
+        res = Result()
+        run_big(res, chunk[1], chunk[2])
+        return res
+    if chunk[0] == "EX":
+        res = Result()
+        for ia, ib in EXT_PAIRS:
+            for ns_name in NUMSYS:
+                for rp in (0, 1):
+                    check_extended(res, ia, ib, ns_name, rp)
+        res.sample(dict(layer="EX", pairs=[["+".join(M.TAGS[i] for i in a), "+".join(M.TAGS[i] for i in b)] for a, b in EXT_PAIRS]), limit=1)
+        return res
     if chunk[0] == "G":
         res = Result()
         idx, order = OFFER_SYSTEMS[chunk[1]]
@@ -761,6 +856,11 @@ def run_chunk(chunk, tier):
 def replay(case):
     res = Result()
     layer = case.get("layer")
+    if layer == "EX":
+        res = Result()
+        check_extended(res, tuple(case["ia"]), tuple(case["ib"]), case["ns"], case["rp"])
+        v = res.violations
+        return dict(key=v[0]["key"], what=v[0]["what"], observed=v[0]["observed"], expected=v[0]["expected"]) if v else None
     if layer == "UB":
         sub = Result()
         check_unbalanced_admission(sub)
